@@ -61,6 +61,24 @@ def cases(tier, inst):
         for t in (("or", a, ("and", a, b)), ("and", ("or", a, b), a), ("or", b, ("and", a, a)), ("and", a, ("or", b, a)),
                   ("or", ("and", a, b), a), ("and", a, a), ("or", a, a)):
             yield (t, "let", "sharedc")
+    # ONE comparison object in three and four places, nested two levels deep
+    for a, b in itertools.permutations(REPRESENTATIVE_8[:6] if tier == "thorough" else REPRESENTATIVE_4, 2):
+        if a[0] not in ("cmp", "in", "has"):
+            continue
+        for t in (("or", ("or", a, a), ("or", b, a)), ("and", ("or", a, b), ("or", b, a)),
+                  ("or", a, ("or", b, a)), ("and", ("or", a, a), ("or", a, b)), ("or", ("or", a, b), ("or", a, a))):
+            yield (t, "let", "sharedc")
+    # ONE and_(...) / or_(...) object (s = and_(a, b), s = a | b) written once and used in several places
+    reps_l = REPRESENTATIVE_8[:6] if tier == "thorough" else REPRESENTATIVE_4
+    for a, b in itertools.permutations(reps_l, 2):
+        for op in ("and", "or"):
+            s_ = (op, a, b)
+            for c in reps_l:
+                if c in (a, b):
+                    continue
+                for t in (("or", s_, s_), ("and", s_, s_), ("orf", s_, c, s_), ("and", s_, ("or", s_, c)), ("or", s_, ("and", s_, c)),
+                          ("or", ("and", s_, c), s_), ("and", ("or", s_, c), s_), ("andf", c, s_, s_)):
+                    yield (t, "let", "sharedl")
     # ONE negated leaf (s = not_(x.flag), s = not_(x.p < 2)) or one truth-position expression (s = x.flag) written once and
     # used in several places: the negated object as a whole is reused, never one object negated in one place only
     reps_n = REPRESENTATIVE_8 if tier == "thorough" else REPRESENTATIVE_4
@@ -144,7 +162,7 @@ def wspec_for(form):
 WSPEC_ID = tuple((dk, "IdItem" if dk == "D" else cls, rows) for dk, cls, rows in WSPEC)
 
 
-SHARE_CONDS = {"sharedc": True, "sharedn": "neg"}
+SHARE_CONDS = {"sharedc": True, "sharedn": "neg", "sharedl": "ops"}
 
 
 def run_case(case, inst):
